@@ -8,6 +8,7 @@ import (
 	"strings"
 	"time"
 
+	"github.com/freeconf/yang/meta"
 	"github.com/freeconf/yang/node"
 	"github.com/freeconf/yang/nodeutil"
 
@@ -29,7 +30,8 @@ type c12Scenario struct {
 	Store  string          `json:"store"`
 	Init   *model.Tree     `json:"init"`
 	Op     sess.Op         `json:"op"`
-	Mode   string          `json:"mode"` // from into jsonwtr xmlwtr
+	Mode   string          `json:"mode"`             // from into jsonwtr xmlwtr
+	Extend bool            `json:"extend,omitempty"` // target root (and every descendant) sits inside a pass-through nodeutil.Extend
 	Faults []simnode.Fault `json:"faults,omitempty"`
 }
 
@@ -59,6 +61,18 @@ func c12Run(env *sess.Env, sc *c12Scenario, faults []simnode.Fault) c12Exec {
 	}
 	ex := c12Exec{ss: ss, log: log}
 	ss.OnOpStart = func() { ex.start = len(ss.Events) }
+	if sc.Extend {
+		// the library's own delegating node between the editor and the recording
+		// wrapper: whatever it fails to forward shows up as a pairing violation
+		ss.Outer = func(n interface{}) interface{} {
+			return &nodeutil.Extend{
+				Base: n.(node.Node),
+				OnExtend: func(e *nodeutil.Extend, sel *node.Selection, m meta.HasDefinitions, child node.Node) (node.Node, error) {
+					return e.Extend(child), nil
+				},
+			}
+		}
+	}
 	switch sc.Mode {
 	case "from":
 		ex.res = sess.Exec(env, st, sc.Op, ss, nil)
@@ -326,7 +340,7 @@ func c12Gen(r *kit.Rng) *c12Scenario {
 	if mode != "from" && mode != "into" {
 		op.Tree, op.List = nil, nil
 	}
-	return &c12Scenario{Schema: s, Store: sk, Init: init, Op: op, Mode: mode}
+	return &c12Scenario{Schema: s, Store: sk, Init: init, Op: op, Mode: mode, Extend: mode == "from" && r.Chance(1, 4)}
 }
 
 func c12Kinds(e simnode.Event) []simnode.FaultKind {
@@ -367,6 +381,9 @@ func c12Explore(sc *c12Scenario, seed uint64, pairs int, r *kit.Rng) (out RunOut
 	n := len(base.ss.Events)
 	out.Stats.Inc("scenarios")
 	out.Stats.Inc("mode:" + sc.Mode)
+	if sc.Extend {
+		out.Stats.Inc("target-inside-nodeutil.Extend")
+	}
 	out.Stats.Inc("store:" + sc.Store)
 	out.Stats.Inc("op:" + sc.Op.Kind)
 	if base.res.Err != nil {
